@@ -57,3 +57,52 @@ Definition authority_nsec_signed (rcode : N) (cd : bool) (qe : rname) (qtype qcl
   if existsb (fun rs => prefix_b signer (c_owner (fst rs)) && negb (snd rs)) recs
   then (E_other, false, false, false)
   else authority_nsec rcode cd qe qtype qclass signer (filter_to_zone signer (map fst recs)).
+
+(* ---- the signature layer in front of the NSEC3 branch (session 5), as authority_nsec_signed: an NSEC3 record
+   whose owner (hash label + r_zone) lies inside the signer zone and whose RRset has no RRSIG verifying under
+   the zone's key — unsigned, or a child zone's NSEC3 (owner hash.child.zone) under the child's key — refuses the
+   whole response; records owned outside are skipped by VerifyRRSIG and dropped by FilterRRsToZone *)
+Definition in_zone3 (signer : rname) (r : nsec3) : bool := prefix_b signer (canon (r_zone r)).
+Definition authority_nsec3_signed (rcode : N) (cd : bool) (qe : rname) (qtype qclass : N) (signer : rname)
+  (recs : list (nsec3 * bool)) (tab : htab) : auth_out :=
+  if cd then (E_ok, false, false, false) else
+  if existsb (fun rs => in_zone3 signer (fst rs) && negb (snd rs)) recs
+  then (E_other, false, false, false)
+  else authority_nsec3 rcode cd qe qtype qclass signer (filter (in_zone3 signer) (map fst recs)) tab.
+
+(* ---- the QNAME-minimised walk below one authority (session 5): Resolver.Resolve -> resolve -> minimize ->
+   processAuthoritySection(minimized = true).  Before the full name q the resolver asks the names
+   m_1 < m_2 < ... (q cut back to one label more than the zone, then one more, ...).  A reply to a
+   minimised question is either NOERROR with the SOA — the walk goes one label deeper, nothing is
+   validated — or NXDOMAIN with denial records (flag true below).  An NXDOMAIN reply is validated by
+   Resolver.authority for the MINIMISED name: an error ends the resolution with that error (fail
+   closed); a validated reply ends the walk with NXDOMAIN for the full question (RFC 8020) only when
+   provenance was published (secure), it is aggressive-eligible and the authority section holds no
+   Opt-Out NSEC3 of the zone (dnsutil.HasNSEC3OptOut); otherwise (CD=1, not eligible, Opt-Out) the walk
+   goes deeper as if nothing had been proven.  The reply to the full name goes through
+   Resolver.authority as before.  [auth m rc] = Resolver.authority on the reply with RCODE rc to the
+   question m (the records of the reply are the same at every level: a parameter of [auth]);
+   w_asked = number of questions sent to the authority. *)
+Record walk_out := mk_wout { w_err : err; w_rcode : N; w_ad : bool; w_marked : bool; w_aggr : bool; w_asked : nat }.
+
+Fixpoint min_walk (auth : rname -> N -> auth_out) (optout : bool) (levels : list (rname * bool))
+  (q : rname) (frc : N) (asked : nat) : walk_out :=
+  match levels with
+  | [] => let '(e, ad, mk, ag) := auth q frc in mk_wout e frc ad mk ag (S asked)
+  | (m, false) :: rest => min_walk auth optout rest q frc (S asked)
+  | (m, true) :: rest =>
+      match auth m RC_NXDOMAIN with
+      | (E_ok, ad, mk, ag) =>
+          if mk && ag && negb optout then mk_wout E_ok RC_NXDOMAIN ad mk ag (S asked)
+          else min_walk auth optout rest q frc (S asked)
+      | (e, _, _, _) => mk_wout e RC_NXDOMAIN false false false (S asked)
+      end
+  end.
+
+(* the minimised names of q below a zone of [alen] labels (names root first): alen+1, ..., |q|-1 labels *)
+Definition walk_names (alen : nat) (q : rname) : list rname :=
+  map (fun k => firstn (alen + k) q) (seq 1 (length q - alen - 1)).
+
+(* dnsutil.HasNSEC3OptOut on the NSEC3 records of the authority section *)
+Definition has_optout3 (signer : rname) (recs : list nsec3) : bool :=
+  existsb (fun r => prefix_b signer (canon (r_zone r)) && negb (N.land (r_flags r) optout_mask_cut =? 0)) recs.
